@@ -25,7 +25,7 @@ func StripAnnotations(w *World, i int) *World {
 	return c
 }
 
-var typeDecl = regexp.MustCompile(`^type (T\w+) struct \{$`)
+var typeDecl = regexp.MustCompile(`^type (T\w+|Shared) struct \{$`)
 var funcDecl = regexp.MustCompile(`^func (\([^)]*\) )?(New|Make|PM|VM|F)\w*\(`)
 
 // SaturateAnnotations returns a copy of w in which every generated type,
@@ -115,7 +115,7 @@ func Sibling(w *World, m *Meta) (*World, map[int]SibLoc) {
 	groups := map[fk][]UseSite{}
 	var order []fk
 	for _, u := range m.Uses {
-		if u.Dep == u.Pkg || u.Text == "" || strings.HasPrefix(u.Shape, "indirect") || u.File == "gen_skip.go" || strings.HasSuffix(u.File, "_test.go") {
+		if u.Dep == u.Pkg || u.Text == "" || strings.HasPrefix(u.Shape, "indirect") || strings.HasPrefix(u.Shape, "ctorfn-") || u.File == "gen_skip.go" || strings.HasSuffix(u.File, "_test.go") {
 			continue
 		}
 		k := fk{u.Dep, u.Pkg, u.File}
@@ -130,19 +130,19 @@ func Sibling(w *World, m *Meta) (*World, map[int]SibLoc) {
 		s.ln("package %s", dep.Name)
 		s.ln("")
 		for n, u := range groups[k] {
-			s.ln("func sib_%s_%s_%d() {", m.Decls[k.u].Name, strings.TrimSuffix(k.file, ".go"), n)
+			s.ln("func sib_%s_%s_%d() {", m.Decls[k.u].Qual, strings.TrimSuffix(k.file, ".go"), n)
 			s.ln("\tx := Get%s()", u.Type)
 			s.ln("\t_ = x")
 			for _, l := range shapeByName(u.Shape).lines {
 				line := s.ln("\t%s", expand(l, "", u.Type, dep.FuncName()))
 				if l == u.Text {
-					locs[u.ID] = SibLoc{File: fmt.Sprintf("zz_sib_%s_%s", m.Decls[k.u].Name, k.file), Line: line}
+					locs[u.ID] = SibLoc{File: fmt.Sprintf("zz_sib_%s_%s", m.Decls[k.u].Qual, k.file), Line: line}
 				}
 			}
 			s.ln("}")
 			s.ln("")
 		}
-		c.Pkgs[k.d].Files = append(c.Pkgs[k.d].Files, File{Name: fmt.Sprintf("zz_sib_%s_%s", m.Decls[k.u].Name, k.file), Src: s.b.String()})
+		c.Pkgs[k.d].Files = append(c.Pkgs[k.d].Files, File{Name: fmt.Sprintf("zz_sib_%s_%s", m.Decls[k.u].Qual, k.file), Src: s.b.String()})
 	}
 	return c, locs
 }
